@@ -1179,10 +1179,14 @@ nni_ctx_rele(nni_ctx *ctx)
 	// tries to avoid ID reuse.
 	nni_id_remove(&ctx_ids, ctx->c_id);
 	nni_list_remove(&sock->s_ctxs, ctx);
+	// The protocol's ctx_fini still uses the socket: keep the socket
+	// until it is done (a concurrent close waits for references).
+	sock->s_ref++;
 	nni_cv_wake(&sock->s_close_cv);
 	nni_mtx_unlock(&sock_lk);
 
 	nni_ctx_destroy(ctx);
+	nni_sock_rele(sock);
 }
 
 int
